@@ -28,7 +28,7 @@ RULE = (
     "after a non-empty one, or the sibling is between its Metadata and its EOF when the subject starts. Distinct = distinct case."
 )
 ASSUMPTIONS = [
-    "all transfers of a case use the same MIB; transaction sequence numbers are masked in the comparison",
+    "transaction sequence numbers are masked in the comparison; earlier transactions come from the subject's sender or from a second sending entity with its own MIB entry at the receiver",
     "the destination directory is emptied before every transfer (same filestore state for the fresh and the after-history run)",
     "timers of a sibling pair do not drive the subject's clock (the harness advances the clock to the subject's own next expiry)",
 ]
@@ -36,6 +36,17 @@ ASSUMPTIONS = [
 
 @st.composite
 def transfer(draw, cfg, allow_none=True):
+    if draw(st.integers(0, 3)) == 0:
+        # lossy acknowledged transfer: several disjoint File Data PDUs are dropped, so that NAK sequences with
+        # several segment requests (split over several NAK PDUs for small packet lengths) occur
+        seg = S.eff_seg_len(cfg)
+        nseg = draw(st.integers(3, 12))
+        t = {"file": {"pat": draw(st.binary(min_size=1, max_size=8)), "size": nseg * seg - draw(st.integers(0, min(seg - 1, 3)))}}
+        t["req_mode"] = "ACK"
+        t["req_closure"] = draw(st.sampled_from([None, True, False]))
+        lost = draw(st.lists(st.integers(0, nseg - 1), min_size=1, max_size=6, unique=True))
+        t["faults"] = [["FD", i, "drop", 0] for i in sorted(lost)] + draw(S.fault_schedules(max_faults=1, actions=("drop", "dup", "delay")))
+        return t
     t = {"file": draw(S.file_specs(cfg, max_bytes=400, max_segments=10, allow_none=allow_none))}
     t["req_mode"] = draw(st.sampled_from([None, None, "ACK", "NAK"]))
     t["req_closure"] = draw(st.sampled_from([None, None, True, False]))
@@ -54,14 +65,31 @@ def case_strategy(draw):
         cfg["fh_src"] = draw(st.sampled_from([{}, {"POSITIVE_ACK_LIMIT_REACHED": "ABANDON"}]))
     case = {"cfg": cfg, "subject": draw(transfer(cfg)), "history": draw(st.lists(transfer(cfg), min_size=1, max_size=4))}
     if draw(st.integers(0, 2)) == 0:
+        # a second sending entity with its own MIB entry at the receiver (other packet / segment length, id width,
+        # CRC flag, checksum type, limits): some of the earlier transactions come from it
+        alt = draw(S.cfgs(vary_limits=True, max_limit=3, request_overrides=False, transports=(cfg["transport"],)))
+        alt["dst_id"] = list(cfg["dst_id"])
+        alt["src_id"] = [alt["src_id"][0], (cfg["src_id"][1] + 1 + draw(st.integers(0, 5))) % (1 << (8 * alt["src_id"][0]))]
+        if alt["src_id"][1] in (cfg["src_id"][1], cfg["dst_id"][1]):
+            alt["src_id"][1] = (max(cfg["src_id"][1], cfg["dst_id"][1]) + 1) % 250
+        alt["max_pkt"] = sim.min_packet_len(sim.norm_cfg(alt)) + draw(st.one_of(st.integers(0, 8), st.integers(0, 600)))
+        case["alt"] = alt
+        hist = []
+        for t in case["history"]:
+            if draw(st.booleans()):
+                t = draw(transfer(alt))
+                t["via"] = "alt"
+            hist.append(t)
+        case["history"] = hist
+    if draw(st.integers(0, 2)) == 0:
         case["sibling"] = {"t": draw(transfer(cfg, allow_none=False)), "pre": draw(st.integers(1, 12)), "every": draw(st.integers(1, 3))}
     return case
 
 
-def _tcase(cfg, t):
-    c = dict(cfg)
+def _tcase(cfg, t, alt=None):
+    c = dict(alt if t.get("via") == "alt" else cfg)
     c["req_mode"], c["req_closure"] = t.get("req_mode"), t.get("req_closure")
-    return {"cfg": c, "file": t["file"], "faults": t.get("faults"), "inject": t.get("inject")}
+    return {"cfg": c, "file": t["file"], "faults": t.get("faults"), "inject": t.get("inject"), "via": t.get("via")}
 
 
 def _norm_raw(raw, cfg):
@@ -143,7 +171,8 @@ def evaluate(case):
     nt = False
     subj = _tcase(cfg, case["subject"])
     # 1. fresh
-    a = sim.Sim(subj, name="c11", keep_tracker=True)
+    alt = case.get("alt")
+    a = sim.Sim(subj, name="c11", keep_tracker=True, alt_cfg=alt)
     a.run(max_steps=3000, max_ticks=40)
     ta = observable(a, 1_000_000)
     a.close()
@@ -151,16 +180,16 @@ def evaluate(case):
     summary = {"fresh_outcome": a.outcome, "subject_mode": subj_mode}
     # 2. after a history
     sim.CLOCK.reset()
-    sess = sim.Session(cfg, "c11")
+    sess = sim.Session(cfg, "c11", alt_cfg=alt)
     hist_ok = True
     hist_facts = []
     try:
         for t in case["history"]:
-            hs = sim.Sim(_tcase(cfg, t), keep_tracker=True, session=sess)
+            hs = sim.Sim(_tcase(cfg, t, alt), keep_tracker=True, session=sess)
             hs.run(max_steps=3000, max_ticks=60)
-            mode = t.get("req_mode") or cfg["mode"]
+            mode = t.get("req_mode") or (alt if t.get("via") == "alt" else cfg)["mode"]
             eventful = bool(hs.link.applied) or bool(hs.faults()) or any(e[0] == "inject" and e[4] is True for e in hs.tlog)
-            hist_facts.append({"outcome": hs.outcome, "mode": mode, "eventful": eventful, "size": None if hs.content is None else len(hs.content)})
+            hist_facts.append({"outcome": hs.outcome, "mode": mode, "eventful": eventful, "size": None if hs.content is None else len(hs.content), "via": t.get("via", "main")})
             if hs.outcome not in ("done",) or not (hs.src.idle() and hs.dst.idle()) or hs.src.internal_error or hs.dst.internal_error:
                 hist_ok = False
                 break
@@ -177,6 +206,8 @@ def evaluate(case):
             if (a.content is None or len(a.content) == 0) and any(h["size"] for h in hist_facts):
                 nt = True
                 classes.append("empty-or-mdonly-after-nonempty")
+            if any(h["via"] == "alt" for h in hist_facts):
+                classes.append("history-from-second-sender")
             if d is not None:
                 vs.append(verdict("same-as-fresh-after-history", f"C11/after-history/{_diff_sig(d)}", f"event {d[0]}: fresh {str(d[1])[:200]} / after history {str(d[2])[:200]}; history {hist_facts}"))
         else:
